@@ -70,7 +70,7 @@ func analyse(goarch string, overlay map[string][]byte) (*core.Collector, error) 
 	c := core.NewCollector()
 	c.Count("module_packages", len(w.ByPath))
 	c.Count("module_functions", len(w.Fns))
-	ls := lockset.AnalyzeAtomic(w, rules.HandOverTagger, rules.AtomicMaps())
+	ls := lockset.AnalyzeAtomic(w, rules.HandOverTagger, rules.AtomicMaps(w))
 	rules.LockOrder(w, ls, c)
 	rules.LockPair(w, ls, c)
 	rules.Guard(w, ls, c)
